@@ -222,6 +222,14 @@ def c05(rec):
     if v or O.had_kill(rec):
         return out, _cls(rec)
     c = O.cause(rec)
+    for o in rec.ops:
+        if o["op"][0] == "shutdown" and o["op"][1] and not o["op"][2] and o["returned"] \
+                and o["exc"] is None and len(rec.prog["threads"]) == 1 \
+                and (o.get("undone_at_return") or o.get("managers_at_return")):
+            out.append(dict(signature=f"C05:waited-shutdown-returned-early|cause={c}",
+                            msg=f"shutdown(wait=True) returned while futures "
+                                f"{o.get('undone_at_return')} were unresolved and "
+                                f"{o.get('managers_at_return')} manager thread(s) still ran"))
     bc = body_counts(rec)
     for key, f in rec.fut.items():
         kind = rec.values[key][0]
@@ -654,6 +662,13 @@ def _c09_racing(rec, m, next_id, pool, post, c):
     if any(o["op"][0] in ("kill", "shutdown") for o in rec.ops if o["t"] != 0) or \
             any(o["op"][0] in ("kill", "shutdown") for o in post[:-1]):
         return []
+    dead = [(o["t"], o["op"][1], o["id"]) for o in calls if o.get("shutdown") or o.get("broken")]
+    if dead:
+        # get_reusable_executor holds the executor lock from its decision to its return: what
+        # it hands out is alive at that moment, whoever replaces it afterwards
+        return [dict(signature=f"C09:racing-returned-unusable|cause={c}",
+                     msg=f"a racing get_reusable_executor call returned an executor that was "
+                         f"already shut down / broken at that moment (thread, kwargs, id): {dead}")]
     seen = set()
     for order in _merges(seqs):
         mm, nid = (dict(m) if m else None), next_id
